@@ -20,7 +20,9 @@ class Glob(Engine):
     def compare_sections(self, prop):
         # SEQ: the expansion in the order spok stores it (`na` on both sides for patterns with `{`),
         # SET: the same, sorted and duplicate-free; directories included
-        return ["SET", "SEQ"]
+        # LEG: doublestar.GlobWalk called directly with a callback answering SkipDir for hidden paths, against the walk
+        #      model with the same callback (validates the modelled SkipDir behaviours on every run)
+        return ["SET", "SEQ", "LEG"]
 
     def shrink_candidates(self, case):
         """drop entries of the tree (halves first, then single entries), then shorten paths, then drop pattern segments"""
